@@ -26,6 +26,7 @@ var verifPrintExtra = []verifTemplate{
 	{"singleton", "$S = { n: int };\nfn show(s: $S, k: int) { println(s.n + k); }\nfn main() {\n  show(4);\n}\n"},
 	{"float-magnitudes", "fn main() {\n  println(0.0000001 < 1.0, 123456789012345678901234.5 > 1.0, 1000000.0, 0.5, 0.000123);\n}\n"},
 	{"object-keys-like-keywords", "fn main() {\n  let o = new { \"fn\": 1, \"let\": 2, plain: 3, \"a\\\"b\": 4 };\n  println(o.plain);\n}\n"},
+	{"loop-break-before-nested-for", "fn main() {\n  let n = 0;\n  loop {\n    n += 1;\n    if n > 3 { break; }\n    for i in 0..2 { n += i; }\n  }\n  println(\"after\", n + A);\n  let m = 0;\n  loop {\n    m += 1;\n    if m < 3 { for x in [1, 2] { m += x; } } else { break; }\n    while m > 100 { m -= 1; }\n  }\n  println(\"done\", m);\n}\n"},
 	{"negative-literals", "fn main() {\n  println(0 - 5, -A, !P, -(1 + 2));\n}\n"},
 }
 
